@@ -3,14 +3,16 @@ See checks/cache_common.py and spec/cache/Cache.tla.  This check reports the
 commit-related clauses: RemoteUntouched (no trigger), CommitExact, FaultReported,
 RetryConverges (a failed Commit followed by a successful one).  The injected failure
 of a remote stream sits alternately at its open and at its close (flush); directory
-copies through the cache are part of the operation set (open findings D_DirCopy, D_SplitCopy)."""
+copies through the cache are part of the operation set (open findings D_DirCopy, D_SplitCopy).
+Histories go on through D_RemoveRemote (view-only; its part that outlives Commit is named
+D_RemoveRemoteDir): CommitExactRR; names also instantiated as sub / sub.old; a three-level spine."""
 import vlib
 from checks import cache_common
 
 MANIFEST = dict(
     technique='TLA+ implementation model of the cache (buffer, four journals, multi-order Commit with fault positions) with a ghost ideal tree and named deviation triggers, checked by TLC; every model transition and simulated deep behaviours replayed on the real Cache over a fault-injecting remote',
     text='TLC proves on all 121 initial remotes over {a,b} x depth 2, <=2 (thorough: <=3, and <=4 without faults) cache operations, <=2 Commits and every position of a failing remote call that outside the named deviation triggers the implementation model equals direct application (CommitExact, retry convergence, fault reported, remote untouched before Commit). Every transition is then replayed on the real cache comparing remote, buffer, journals and results; inside a trigger region the real behaviour must equal the ideal or the documented deviation.',
-    note='Open findings (known_findings.json): D_RemoveRemote, D_OrderLost, D_AcceptsRejected, D_RejectsAccepted, D_FailedJournaled, D_DirCopy, D_SplitCopy (directory copies are part of the modelled operation set for every conflict-free destination). Faults are injected at remote-call granularity.')
+    note='Open findings (known_findings.json): D_RemoveRemote (+ D_RemoveRemoteDir, its part that outlives Commit), D_OrderLost, D_AcceptsRejected, D_RejectsAccepted, D_FailedJournaled, D_DirCopy, D_SplitCopy (directory copies are part of the modelled operation set for every conflict-free destination). Faults are injected at remote-call granularity.')
 
 
 def run(ctx):
